@@ -2,6 +2,10 @@
 (***************************************************************************)
 (* Bounded, transparent decompression (C12): maybeDeflate / parseResponse  *)
 (* (decode_response.go:425-479) as used by the six inbound entry points.   *)
+(* "validateEncInner" is ValidateEncodedResponse on an unsigned Response    *)
+(* whose EncryptedAssertion plaintext is itself presented raw or DEFLATEd  *)
+(* (decode_response.go:181 runs the decrypted octets through the same      *)
+(* bounded inflate with the configured limit).                             *)
 (* limit is the configured MaximumDecompressedBodySize: "0" (unset, 5 MiB),*)
 (* "1", "2k", "64k".  size is the decompressed size of the presented       *)
 (* document relative to the effective limit: natural (a few KiB, no        *)
